@@ -189,6 +189,25 @@ theorem sentence3_not_sqli (w1 w2 w3 d : Bytes) (h1 : Word w1) (k1 : NotKeywordL
   have t2 := Txt.wordAt g2 (show isSepByte 58 = true by decide) (Txt.colon t3)
   exact Txt.word (Or.inl g1) (Or.inr ⟨_, rfl⟩) (Txt.space t2)
 
+/-- numbers in exponent notation (`12e5`, `3E+10`, `7e-2`) between single spaces, among words and unsigned integers -/
+theorem scientific_not_sqli (a b m x sg : Bytes) (e : UInt8) (ha : (Word a ∧ NotKeywordLike a) ∨ Num a)
+    (hb : (Word b ∧ NotKeywordLike b) ∨ Num b) (hm : Num m) (hx : Num x) (he : e = 69 ∨ e = 101)
+    (hs : sg = [] ∨ sg = [43] ∨ sg = [45]) :
+    isSQLi (a ++ 32 :: ((m ++ e :: (sg ++ x)) ++ 32 :: b)) = .ok (false, []) := by
+  apply isSQLi_txt
+  have ga : GoodWord a ∨ GoodNum a := by
+    rcases ha with ⟨h, k1, k2⟩ | h
+    · exact Or.inl ⟨h, fun _ => k1, fun _ => k2⟩
+    · exact Or.inr h
+  have gb : GoodWord b ∨ GoodNum b := by
+    rcases hb with ⟨h, k1, k2⟩ | h
+    · exact Or.inl ⟨h, fun _ => k1, fun _ => k2⟩
+    · exact Or.inr h
+  have tb : Txt (b ++ []) := Txt.word gb (Or.inl rfl) Txt.nil
+  rw [List.append_nil] at tb
+  have tm := Txt.sci (w := m ++ e :: (sg ++ x)) ⟨m, x, e, sg, rfl, hm, hx, he, hs⟩ (Or.inr ⟨_, rfl⟩) (Txt.space tb)
+  exact Txt.word ga (Or.inr ⟨_, rfl⟩) (Txt.space tm)
+
 /-- items joined by `, ` -/
 def commaList : List Bytes → Bytes
   | [] => []
